@@ -126,6 +126,42 @@ func vfC09(c *hx.Ctx) {
 		c.UnitBudget = 10 * time.Second
 		c.Explore("wire-oob/cipher="+ciph, vfPairParams(cf, 0), 0, vfPairRun(cf, 0, body))
 	}
+	// the Linux batch transmit path: whole batches, short counts, and once a short count followed by an error (what the
+	// kernel accepted is on the wire: nothing may be emitted twice)
+	for _, bm := range []int{1, 2, 3} {
+		for _, cl := range [][3]any{{"aes-128", 2, 1}, {"aes-gcm", 0, 0}, {"", 3, 2}} {
+			cf := vfPairCfg{Cipher: cl[0].(string), DS: cl[1].(int), PS: cl[2].(int), SDS: -1, Stream: true, NoDelay: [4]int{1, 10, 2, 1}, Writes: []int{3000, 1200, 50, 2800}, WritesBack: []int{100, 2000}, ReadBuf: 4096,
+				Pool: vrt.PoolEager, Preempt: 1, Switch: 1, Select: 1, Wire: true, Owners: []string{"C09:"}, K: hx.Pick(c, 2, 3), HorizonS: 30, Batch: bm}
+			body := func(p *vfPair) {
+				if bm == 3 {
+					// the injected error ends the session's ability to write: run the traffic with deadlines and only judge the wire
+					// (the datagrams of the failed batch never reach the wire, so the FEC ids seen there have a gap: only layout and
+					// uniqueness are judged)
+					p.cfg.Owners = []string{"C09:identical-datagrams", "C09:nonce-reused", "C09:frame-malformed", "C09:fec-type-position", "C09:fec-seqid-range"}
+					var wg vrt.WaitGroup
+					wg.Add(1)
+					vrt.Go("writer", func() {
+						defer wg.Done()
+						off := 0
+						for _, n := range cf.Writes {
+							p.client.SetWriteDeadline(vrt.Now().Add(300 * time.Millisecond))
+							if _, err := p.client.Write(vfPayload(0, n, off)); err != nil {
+								return
+							}
+							off += n
+						}
+					})
+					wg.Wait()
+					vrt.Idle(300 * time.Millisecond)
+					p.teardown()
+					return
+				}
+				vfStdBody(p)
+			}
+			c.UnitBudget = 8 * time.Second
+			c.Explore(fmt.Sprintf("wire-batch-io/mode=%d/cipher=%s/fec=%d,%d", bm, cf.Cipher, cf.DS, cf.PS), vfPairParams(cf, 0), 0, vfPairRun(cf, 0, body))
+		}
+	}
 	vfC09EntropyConcurrent(c)
 	// nonce freshness of the real entropy source
 	if c.Shard == 0 && !c.Skip("entropy") {
